@@ -303,7 +303,10 @@ def buildBody (junk : UInt8) (body : Option Bytes) (data : Bytes) (offset total 
   | none => none
   | some b =>
     if offset + data.length ≤ total ∧ b.length ≥ total then some (memcpyAt b offset data)
-    else some (memcpyAt (resizeBin junk b (offset + data.length)) offset data)
+    else
+      -- "Payloads already stored beyond this one must be kept": new_length = max(offset + length, body_data->length)
+      let newLen := if offset + data.length < b.length then b.length else offset + data.length
+      some (memcpyAt (resizeBin junk b newLen) offset data)
 
 /-! ## receiver side of a Block1 transfer in COAP_BLOCK_SINGLE_BODY mode (coap_handle_request_put_block) -/
 
